@@ -422,6 +422,10 @@ def ob_argv(pid, label="C19.a"):
             if not okv:
                 return dict(verdict=vf.HARNESS_ERROR, paths=nq, detail="interpreter disagrees with real cmake: " + whyv)
             nval += 2
+        okf, whyf, nf = validate_fixture(work)
+        if not okf:
+            return dict(verdict=vf.HARNESS_ERROR, paths=nq, detail="interpreter disagrees with real cmake on the fixture: " + whyf)
+        nval += nf
         return dict(verdict=vf.HOLDS, paths=nq, samples=samples, validated=nval, cpu_s=time.time() - t0,
                     detail="argv == spec_argv and COMMAND_ERROR_IS_FATAL ANY on every interpreted path, 0..3 extra arguments")
     return vf.FN("%s cminx_gen_rst: argv of the cminx process == spec_argv; failure is fatal" % label, fn,
@@ -436,7 +440,7 @@ exit ${CMINX_FAKE_RC:-0}
 """
 
 
-def run_cmake(work, inp, outp, extra, rc=0, cwd=None):
+def run_cmake(work, inp, outp, extra, rc=0, cwd=None, cmake_file=None, fname="cminx_gen_rst"):
     """real cmake -P with CMINX_EXECUTABLE bound to an argv recorder -> (argv list or None, cmake exit code)"""
     d = os.path.join(work, "cmk")
     os.makedirs(d, exist_ok=True)
@@ -448,7 +452,7 @@ def run_cmake(work, inp, outp, extra, rc=0, cwd=None):
         os.remove(out)
     q = lambda s: '"' + s.replace("\\", "\\\\").replace('"', '\\"').replace("$", "\\$") + '"'
     script = os.path.join(d, "run.cmake")
-    open(script, "w").write('set(CMINX_EXECUTABLE %s)\ninclude(%s)\ncminx_gen_rst(%s)\n' % (q(rec), q(CMAKE_FILE), " ".join(q(a) for a in [inp, outp] + list(extra))))
+    open(script, "w").write('set(CMINX_EXECUTABLE %s)\ninclude(%s)\n%s(%s)\n' % (q(rec), q(cmake_file or CMAKE_FILE), fname, " ".join(q(a) for a in [inp, outp] + list(extra))))
     env = dict(os.environ, CMINX_ARGV_OUT=out, CMINX_FAKE_RC=str(rc))
     p = subprocess.run(["cmake", "-P", script], env=env, capture_output=True, text=True, timeout=60, cwd=cwd)
     argv = open(out).read().split("\n")[:-1] if os.path.exists(out) else None
@@ -521,6 +525,66 @@ def sample_of_regex(rgx):
         return t if pyre.search(rgx, t) else None
     except Exception:
         return None
+
+
+def validate_fixture(work):
+    """interpreter vs real cmake -P on lib/e3_fixture.cmake (conditions, cmake_parse_arguments, file(STRINGS), list operations), concrete
+    arguments and a concrete file system: the argv must agree exactly. -> (ok, why, scenarios)"""
+    if shutil.which("cmake") is None:
+        return True, "cmake not installed: validation skipped", 0
+    fx = os.path.join(os.path.dirname(os.path.abspath(__file__)), "e3_fixture.cmake")
+    cmds = commands(fx)
+    base = os.path.join(work, "fx")
+    shutil.rmtree(base, ignore_errors=True)
+    os.makedirs(os.path.join(base, "dir"))
+    open(os.path.join(base, "file.cmake"), "w").write("")
+    open(os.path.join(base, "s_off.yaml"), "w").write("input:\n  recursive: false\n")
+    open(os.path.join(base, "s_on.yaml"), "w").write("input:\n  recursive: true\n")
+    D, F = os.path.join(base, "dir"), os.path.join(base, "file.cmake")
+    scen = [(D, []), (F, ["-p", "x"]), (D, ["-s", os.path.join(base, "s_off.yaml")]), (D, ["-s", os.path.join(base, "s_on.yaml")]),
+            (D, ["-s", os.path.join(base, "missing.yaml"), "extra"]), (D, ["-t", "T", "QUIET"]), (F, ["MANY", "a", "b", "-t", "OFF"]),
+            (D, ["x", "-s", "0"]), (D, ["QUIET", "-s"])]
+    rec = os.path.join(work, "cmk", "recorder.sh")
+    n = 0
+    for (inp, extra) in scen:
+        argv, rc = run_cmake(work, inp, "OUT", extra, cmake_file=fx, fname="fx_gen")
+        if argv is None:
+            return False, "real cmake produced no argv for %r %r (rc %s)" % (inp, extra, rc), n
+        paths = interpret_paths(cmds, "fx_gen", [StringVal(inp), StringVal("OUT")] + [StringVal(x) for x in extra], {"CMINX_EXECUTABLE": [StringVal(rec)]},
+                                lambda x: BoolVal(os.path.isdir(x.as_string())) if is_string_value(x) else BoolVal(False))
+        got = None
+        for (pc, calls, envlog) in paths:
+            s_ = Solver()
+            s_.add(pc)
+            for ev in envlog:
+                pth = simplify(ev[1])
+                if not is_string_value(pth):
+                    return False, "symbolic path in a concrete run", n
+                full = pth.as_string()
+                if ev[0] == "exists":
+                    s_.add(ev[2] == BoolVal(os.path.exists(full)))
+                else:
+                    hit = False
+                    if os.path.isfile(full):
+                        import re as pyre
+                        hit = any((pyre.search(ev[3], ln) if ev[3] is not None else True) for ln in open(full).read().split("\n") if ln != "" or ev[3] is None)
+                    s_.add(ev[2] == BoolVal(hit))
+            if str(s_.check()) == "sat":
+                m = s_.model()
+                if len(calls) != 1:
+                    return False, "interpreter: %d execute_process calls" % len(calls), n
+                got = []
+                for a in calls[0][0]:
+                    v = m.eval(a, model_completion=True)
+                    got.append(v.as_string() if is_string_value(v) else None)
+                break
+        if got is None:
+            return False, "no interpreted path matches the real file system for %r %r" % (inp, extra), n
+        # a line found by file(STRINGS) is a fresh symbolic value in the interpreter: it never reaches the argv in the fixture
+        if got[1:] != argv:
+            return False, "interpreter argv %r != real cmake argv %r for input %r extra %r" % (got[1:], argv, inp, extra), n
+        n += 1
+    return True, "", n
 
 
 def replay_cmake(work, vals, isd, k, actions=()):
